@@ -172,6 +172,9 @@ class Project(object):
         module = None  # type: SourceModule | ImportedModule | None
         if not filename:
             # a submodule its parent creates at import time: os.path
+            if name in sys.builtin_module_names and name not in sys.modules:
+                __import__(name)  # compiled into the interpreter: gc, pwd
+
             if name in sys.modules and self._loaded_is_ours(name):
                 module = ImportedModule(sys.modules[name])
         else:
